@@ -2,6 +2,7 @@ CONSTANTS Big = FALSE CP = 79 CB = 7 CN = 67 CGx = 1 CGy = 18
 WifKeys = {0,1,66,67,68}
 WifSuffixLens = {0,1}
 LongSuffixLen = 64
+LongEvery = 1
 B64Bytes = {0,255}
 B64Chars = {65,61}
 B64MaxChars = 4
@@ -12,8 +13,7 @@ INIT Init
 NEXT Next
 INVARIANT Sec1AcceptExact
 INVARIANT Sec1RoundTrip
-INVARIANT WifRefusesInvalidKey
-INVARIANT WifRoundTrip
+INVARIANT WifExact
 INVARIANT WifAcceptIsImage
 INVARIANT PemPrivExact
 INVARIANT PemPubExact
